@@ -62,7 +62,7 @@ def run(ctx):
         if k == "ok" and c > 0:
             for b in budgets(r, c):
                 sweep.append(run_line(p, e, f=f, m=b))
-                meta.append((p, f, c, v, b))
+                meta.append((p, e, f, c, v, b))
     # a budget of 0 means unlimited: the same line under the largest explicit budget
     linesmax = [run_line(p, e, f=f, m=2 ** 64 - 1) for p, e, f in base]
     outsmax = vlib.run_impl("run", linesmax)
@@ -77,7 +77,7 @@ def run(ctx):
     # property-level search on the implementation
     outs = vlib.run_impl("run", sweep)
     by_prog = {}
-    for l, (p, f, c, v, b), o in zip(sweep, meta, outs):
+    for l, (p, e, f, c, v, b), o in zip(sweep, meta, outs):
         runlib.count_case(ctx, l)
         k, c2, v2, _ = parse_obs(o)
         exempt_possible = bool(f & FLAG["NEW_COST_MODEL"]) and runlib.has_softfork(p)
@@ -95,7 +95,7 @@ def run(ctx):
                 ctx.violation("budget %d >= cost %d fails although no cost-exempt guard can be entered" % (b, c), rep)
         else:
             ctx.violation("a budget other than the unlimited one fails with an error other than cost exceeded", rep)
-        by_prog.setdefault((p, f), []).append((b, k == "ok", l, o))
+        by_prog.setdefault((p, e, f), []).append((b, k == "ok", l, o))
     for key, lst in by_prog.items():          # upward closure (also with exempt guards)
         lst.sort()
         seen_ok = None
